@@ -362,15 +362,33 @@ func verifQualifiers(e ast.Expr, out map[string]bool) {
 // name of an import recorded in the parameter's ReferencedImports (the generator marks
 // exactly those as used, so a qualifier outside the set is an undefined identifier in
 // the output), and every recorded import is one the spelling uses (otherwise
-// "imported and not used").
+// "imported and not used"). Both orders in which the generator meets a type are run:
+// imports collected first (provider results, Build) and spelled first (injector arguments:
+// autoAddMissingDependencies spells the type in NewGraph, Build collects later); the
+// package's own name may already be taken in the file (a user identifier "remote").
 func verifHarnessTypeImports(depth int) {
 	user := types.NewPackage("example.com/u", "u")
 	ext := types.NewPackage("example.com/ext/remote", "remote")
 	t := verifAnyType(depth, user, ext)
 	imports := map[string]*Import{}
 	vp := NewVarPool()
-	p := NewInjectorParamWithImports([]types.Type{t}, true, "example.com/u", imports, vp)
-	expr, err := createASTTypeExpr("example.com/u", t, vp, imports)
+	taken := verifChoice(2) == 1
+	if taken {
+		vp.Reserve("remote")
+		verifLog("taken", "remote")
+	}
+	var p *InjectorParam
+	var expr ast.Expr
+	var err error
+	if verifChoice(2) == 0 {
+		verifLog("order", "collect-then-spell")
+		p = NewInjectorParamWithImports([]types.Type{t}, true, "example.com/u", imports, vp)
+		expr, err = createASTTypeExpr("example.com/u", t, vp, imports)
+	} else {
+		verifLog("order", "spell-then-collect")
+		expr, err = createASTTypeExpr("example.com/u", t, vp, imports)
+		p = NewInjectorParamWithImports([]types.Type{t}, true, "example.com/u", imports, vp)
+	}
 	if err != nil {
 		verifAssert(false, "type-refused")
 		return
@@ -384,6 +402,9 @@ func verifHarnessTypeImports(depth int) {
 	}
 	for q := range quals {
 		verifAssert(names[q], "qualifier-not-in-referenced-imports")
+		if taken {
+			verifAssert(q != "remote", "qualifier-is-a-name-already-in-use")
+		}
 	}
 	for n := range names {
 		verifAssert(quals[n], "referenced-import-not-used-by-spelling")
